@@ -145,6 +145,22 @@ class ImplWorld:
             if op.get("deep") is not None:
                 kw["deep"] = op["deep"]
             tgt.add(self.trees[op["st"]], **kw)
+        elif k == "w.copykids":
+            tgt = self.node(op["t"], op["p"])
+            if not op["p"]:
+                tgt = t
+            if not op["sp"] and op.get("tree_api", True):
+                self.trees[op["st"]].copy_to(tgt, deep=op.get("deep", True))
+            else:
+                self.node(op["st"], op["sp"]).copy_to(tgt, add_self=False, deep=op.get("deep", False))
+        elif k == "w.copy":
+            new = self.trees[op["st"]].copy()
+            self.trees.append(new)
+            self.hooks.append(None)
+        elif k == "w.nodecopy":
+            new = self.node(op["st"], op["sp"]).copy(add_self=op.get("self", True))
+            self.trees.append(new)
+            self.hooks.append(None)
         elif k == "w.move":
             n = self.node(op["t"], op["n"])
             if op.get("cross"):
@@ -247,6 +263,11 @@ def model_op(op, impl):
     b = m.get("before")
     if isinstance(b, dict) and b.get("ft", op.get("t")) != op.get("t"):
         m["before"] = {"path": b["path"], "foreign": True}
+    if op["op"] == "w.copykids":
+        if not op["sp"] and op.get("tree_api", True):
+            m["deep"] = op.get("deep", True)
+        else:
+            m["deep"] = op.get("deep", False)
     if op["op"] == "w.sort":
         if not op["n"] and op.get("tree_api", True):
             m["deep"] = op.get("deep", True)
